@@ -1408,6 +1408,31 @@ fn split_part(ctx: &mut Ctx) {
     split2_case(ctx, (e[0], e[1], nx), (e[2], e[3], ny), k);
   }
 
+  // ---- exact-size contract: `len()` before and after every pull of a front/back script (ties the model's `len`)
+  for n in 0..=(if ctx.thorough { 12usize } else { 6 }) {
+    for rep in 0..3 {
+      let (a, b) = fixed[(n + rep) % fixed.len()];
+      let sc: String = (0..n + 3).map(|_| if ctx.rng.coin() { 'F' } else { 'B' }).collect();
+      let mut it = Steps(a, b, n).into_iter();
+      let mut lens = vec![it.len().to_string()];
+      for c in sc.chars() {
+        if c == 'F' { it.next(); } else { it.next_back(); }
+        lens.push(it.len().to_string());
+      }
+      ctx.k("steps_lens", &format!("{} {}", args1(a, b, n), sc), &lens.join(" "));
+      let (nx, ny) = (n % 4, n / 2);
+      let (x, y) = ((0.0, 1.0, nx), (10.0, -3.0, ny));
+      let sc: String = (0..nx * ny + 3).map(|_| if ctx.rng.coin() { 'F' } else { 'B' }).collect();
+      let mut it = Steps2D(x, y).into_iter();
+      let mut lens = vec![it.len().to_string()];
+      for c in sc.chars() {
+        if c == 'F' { it.next(); } else { it.next_back(); }
+        lens.push(it.len().to_string());
+      }
+      ctx.k("steps2d_lens", &format!("{} {}", args2(x, y), sc), &lens.join(" "));
+    }
+  }
+
   // ---- all proper trees for small lengths
   let mut memo: Vec<Option<Vec<Tree>>> = Vec::new();
   let t1max = if ctx.thorough { 8 } else { 6 };
